@@ -129,7 +129,11 @@ def classify(pid, unit_results):
         bad_lines = {}  # line -> diag
         fn_unreliable = set()  # functions whose unreported obligations cannot be trusted
         per_fn_diag_count = {}
-        nopanic = props.NOPANIC_TAG.get(unit)
+        # the implicit tag(s) of a panic (a failed precondition of a std function: unwrap, index, ...) in this unit; the one
+        # that belongs to the property being checked is used, so that a panic in actor-side code counts for C04 as well
+        _np = props.NOPANIC_TAG.get(unit)
+        _npl = list(_np) if isinstance(_np, (list, tuple)) else ([_np] if _np else [])
+        nopanic = next((t for t in _npl if t.split(".")[0] == pid), _npl[0] if _npl else None)
         for d in res.diags:
             fk = fn_key_of_line(res, d.get("primary_line") or 0)
             per_fn_diag_count[fk] = per_fn_diag_count.get(fk, 0) + 1
